@@ -16,6 +16,9 @@ Transformations (each applied to every function of every module):
              in an assignment's value is first bound to a fresh local
   flatten    if C: ...return/raise/continue/break  else: REST   ->  if C: ...; REST
   unflatten  if C: ...return (last statement of the if, no else) ; REST  ->  if C: ... else: REST
+  ifexp / comp / guard / tuple / while / inline1 / extract: see the docstrings of the t_* functions (conditional expressions,
+             comprehensions, early-continue guards, tuple assignments, counted while loops, inlined single-use
+             temporaries, loop bodies extracted into new helper functions)
 
 usage: metamorph.py [--only T1,T2] [--checks C01,C02] [--keep DIR] [--pytest]
 """
@@ -432,9 +435,139 @@ def t_while(tree):
     return tree
 
 
-TRANSFORMS = {"ifexp": t_ifexp, "comp": t_comp, "guard": t_guard, "tuple": t_tuple, "while": t_while, "rename": t_rename, "negate": t_negate, "flip": t_flip, "demorgan": t_demorgan, "enum": t_enum, "temp": t_temp,
+# ------------------------------------------------------------------ inline1
+def t_inline1(tree):
+    """t = E; S(t)  ->  S(E)   for a call-free E, when t occurs exactly once in the next statement and nowhere else"""
+    def block(stmts, counts):
+        out = []
+        i = 0
+        while i < len(stmts):
+            s = stmts[i]
+            for f in ("body", "orelse", "finalbody"):
+                b = getattr(s, f, None)
+                if isinstance(b, list) and b and isinstance(b[0], ast.stmt):
+                    setattr(s, f, block(b, counts))
+            if isinstance(s, ast.Try):
+                for h in s.handlers:
+                    h.body = block(h.body, counts)
+            nxt = stmts[i + 1] if i + 1 < len(stmts) else None
+            if isinstance(s, ast.Assign) and len(s.targets) == 1 and isinstance(s.targets[0], ast.Name) and not has_call(s.value) \
+                    and not isinstance(s.value, (ast.List, ast.Dict, ast.Set, ast.ListComp, ast.DictComp, ast.SetComp, ast.GeneratorExp, ast.Lambda)) \
+                    and nxt is not None and isinstance(nxt, (ast.Assign, ast.AugAssign, ast.Expr, ast.Return)) and counts.get(s.targets[0].id, 0) == 2:
+                t = s.targets[0].id
+                uses = [n for n in ast.walk(nxt) if isinstance(n, ast.Name) and n.id == t and isinstance(n.ctx, ast.Load)]
+                lazy = any(isinstance(n, (ast.Lambda, ast.ListComp, ast.DictComp, ast.SetComp, ast.GeneratorExp, ast.IfExp, ast.BoolOp)) for n in ast.walk(nxt))
+                stores_read = {n.id for n in ast.walk(s.value) if isinstance(n, ast.Name)}
+                tgt_names = {n.id for n in ast.walk(nxt) if isinstance(n, ast.Name) and isinstance(n.ctx, ast.Store)}
+                if len(uses) == 1 and not lazy and not has_call(nxt) and not (stores_read & tgt_names and isinstance(nxt, ast.AugAssign)):
+                    val = s.value
+
+                    class R(ast.NodeTransformer):
+                        def visit_Name(self, n):
+                            if n.id == t and isinstance(n.ctx, ast.Load):
+                                return ast.copy_location(copy.deepcopy(val), n)
+                            return n
+                    out.append(R().visit(nxt))
+                    i += 2
+                    continue
+            out.append(s)
+            i += 1
+        return out
+    for fn in functions(tree):
+        counts = {}
+        for n in ast.walk(fn):
+            if isinstance(n, ast.Name):
+                counts[n.id] = counts.get(n.id, 0) + 1
+        fn.body = block(fn.body, counts)
+    return tree
+
+
+# ------------------------------------------------------------------ extract
+def t_extract(tree):
+    """the body of a top-level `for` loop of a method/function is moved into a new helper (called once per iteration)
+    when it has no return/break/continue/yield, and every local it assigns is private to the body"""
+    k = [0]
+
+    def free_vars(body, target_names):
+        stored, read = set(), []
+        for s in body:
+            for n in ast.walk(s):
+                if isinstance(n, ast.Name):
+                    if isinstance(n.ctx, (ast.Store, ast.Del)):
+                        stored.add(n.id)
+                    else:
+                        read.append(n.id)
+        return stored, read
+
+    def process(fn, owner_body, is_method):
+        import builtins
+        new_defs = []
+        params = {a.arg for a in ast.walk(fn.args) if isinstance(a, ast.arg)}
+        all_names = [n for n in ast.walk(fn) if isinstance(n, ast.Name)]
+        for idx, s in enumerate(fn.body):
+            if not (isinstance(s, ast.For) and not s.orelse and len(s.body) >= 2):
+                continue
+            body_nodes = list(ast.walk(ast.Module(body=s.body, type_ignores=[])))
+            if any(isinstance(n, (ast.Return, ast.Break, ast.Continue, ast.Yield, ast.YieldFrom, ast.Await, ast.FunctionDef, ast.Lambda, ast.Global, ast.Nonlocal,
+                                  ast.ListComp, ast.SetComp, ast.DictComp, ast.GeneratorExp)) for n in body_nodes):
+                continue
+            if any(isinstance(n, ast.Call) and isinstance(n.func, ast.Name) and n.func.id == "super" for n in body_nodes):
+                continue
+            stored, read = free_vars(s.body, None)
+            inside = {id(n) for n in body_nodes}
+            outside_names = {n.id for n in all_names if id(n) not in inside}
+            tvars = {n.id for n in ast.walk(s.target) if isinstance(n, ast.Name)}
+            if stored & (outside_names | tvars | params):
+                continue
+            # locals must be assigned before they are read inside the body (no value carried between iterations)
+            seen = set()
+            ok = True
+            for st in s.body:
+                for n in ast.walk(st):
+                    if isinstance(n, ast.Name) and isinstance(n.ctx, ast.Load) and n.id in stored and n.id not in seen:
+                        # approximate: any read in a statement before the first store statement
+                        ok = ok and any(isinstance(m, ast.Name) and m.id == n.id and isinstance(m.ctx, ast.Store) for m in ast.walk(st)) and isinstance(st, ast.Assign) \
+                            and not any(isinstance(m, ast.Name) and m.id == n.id and isinstance(m.ctx, ast.Load) for m in ast.walk(st.value))
+                for n in ast.walk(st):
+                    if isinstance(n, ast.Name) and isinstance(n.ctx, ast.Store):
+                        seen.add(n.id)
+            if not ok:
+                continue
+            free = []
+            for r in read:
+                if r not in stored and r not in free and not hasattr(builtins, r) and (r in params or r in outside_names or r in tvars) and r in (params | tvars | {n.id for n in all_names if isinstance(n.ctx, ast.Store)}):
+                    free.append(r)
+            if is_method:
+                me = fn.args.args[0].arg if fn.args.args else None
+                if me is None or any(isinstance(d, ast.Name) and d.id in ("staticmethod", "classmethod") for d in fn.decorator_list):
+                    continue
+                free = [f for f in free if f != me]
+            k[0] += 1
+            hname = "_mm_body_%d" % k[0]
+            hargs = ([ast.arg(arg=me)] if is_method else []) + [ast.arg(arg=f) for f in free]
+            helper = ast.FunctionDef(name=hname, args=ast.arguments(posonlyargs=[], args=hargs, vararg=None, kwonlyargs=[], kw_defaults=[], kwarg=None, defaults=[]),
+                                     body=s.body, decorator_list=[], returns=None, type_comment=None)
+            callee = ast.Attribute(value=ast.Name(id=me, ctx=ast.Load()), attr=hname, ctx=ast.Load()) if is_method else ast.Name(id=hname, ctx=ast.Load())
+            s.body = [ast.Expr(value=ast.Call(func=callee, args=[ast.Name(id=f, ctx=ast.Load()) for f in free], keywords=[]))]
+            new_defs.append(helper)
+        return new_defs
+    new_mod = []
+    for st in tree.body:
+        if isinstance(st, ast.FunctionDef):
+            new_mod.extend(process(st, tree.body, False))
+        elif isinstance(st, ast.ClassDef):
+            extra = []
+            for m in st.body:
+                if isinstance(m, ast.FunctionDef):
+                    extra.extend(process(m, st.body, True))
+            st.body.extend(extra)
+    tree.body.extend(new_mod)
+    return tree
+
+
+TRANSFORMS = {"inline1": t_inline1, "extract": t_extract, "ifexp": t_ifexp, "comp": t_comp, "guard": t_guard, "tuple": t_tuple, "while": t_while, "rename": t_rename, "negate": t_negate, "flip": t_flip, "demorgan": t_demorgan, "enum": t_enum, "temp": t_temp,
               "flatten": t_flatten, "unflatten": t_unflatten}
-COMBOS = [("comp", "rename", "guard"), ("while", "tuple", "ifexp"), ("rename", "temp"), ("negate", "flip"), ("enum", "rename", "flatten"), ("temp", "negate", "unflatten")]
+COMBOS = [("extract", "rename", "flip"), ("inline1", "negate", "while"), ("comp", "rename", "guard"), ("while", "tuple", "ifexp"), ("rename", "temp"), ("negate", "flip"), ("enum", "rename", "flatten"), ("temp", "negate", "unflatten")]
 
 
 def make_variant(names, dest):
